@@ -57,12 +57,12 @@ Qed.
 
 Theorem close_writer_confined dst w : wtmp_in w -> all_steps (confined dst) (close_writer hash w).
 Proof.
-  intros [p Hp]. unfold close_writer. rewrite Hp. destruct (content_path (sri_of hash (w_algo w) (w_data w))) as [cp|]; [|apply unlink_quiet_conf].
+  intros [p Hp]. unfold close_writer, trim, publish. rewrite Hp. destruct (content_path (sri_of hash (w_algo w) (w_data w))) as [cp|]; [|apply unlink_quiet_conf].
+  apply all_steps_bind;
+    [destruct (w_map w) as [sz|]; [destruct (w_pos w <? sz)|]; try exact I; conf_step|].
+  intros rt; destruct rt; try apply unlink_quiet_conf.
   cbn [all_steps]. split; [intros lx Hl; cbn [may_touch] in Hl; apply in_map_iff in Hl as [q [<- _]]; left; eexists; reflexivity|].
   intros r0. destruct r0; try apply unlink_quiet_conf.
-  all: apply all_steps_bind;
-    [destruct (w_map w) as [sz|]; [destruct (w_pos w <? sz)|]; try exact I; conf_step|].
-  all: intros rt; destruct rt; try apply unlink_quiet_conf.
   all: cbn [all_steps]; split; [intros lx [->| ->]; left; eexists; reflexivity|].
   all: intros r; destruct r; try exact I.
   all: cbn [all_steps]; split; [intros lx []|]; intros r2; destruct r2 as [| |[|]| | | |]; apply unlink_quiet_conf.
